@@ -7,6 +7,7 @@ import Proofs.KNTable
 import Proofs.KNCorpus
 import Proofs.KNProb
 import Proofs.KNCorpus3
+import Proofs.KNCorpus4
 /-!
 # C06 — lmplz output is a proper, closed, loadable language model
 
@@ -192,6 +193,22 @@ theorem header_counts_corpus (cfg : Cfg) (pv : Bool) (fallback : Option Disc) (c
     (hw : ∀ s ∈ corpus, ∀ w ∈ s, 3 ≤ w) (hthr : ∀ i, i < cfg.order - 1 → cfg.thr i ≤ cfg.thr (i + 1)) :
     m.header = m.orders.map List.length :=
   KV.KN.Norm.header_counts_corpus cfg pv fallback corpus m hm h2 hne hw hthr
+
+/-- **closed, for every corpus**: context and suffix of every written n-gram are written -/
+theorem closed_corpus (cfg : Cfg) (pv : Bool) (fallback : Option Disc) (corpus : List (List Word)) (m : Model)
+    (hm : Spec.estimate cfg pv fallback corpus = .ok m) (h2 : 2 ≤ cfg.order) (hne : corpus ≠ [])
+    (hw : ∀ s ∈ corpus, ∀ w ∈ s, 3 ≤ w) (hthr : ∀ i, i < cfg.order - 1 → cfg.thr i ≤ cfg.thr (i + 1))
+    (g : Gram) (hg : 2 ≤ g.length) (hin : (Query.lookup m.orders g).isSome = true) :
+    (Query.lookup m.orders g.tail).isSome = true ∧ (Query.lookup m.orders g.dropLast).isSome = true :=
+  KV.KN.Norm.closed_corpus cfg pv fallback corpus m hm h2 hne hw hthr g hg hin
+
+/-- **specials, for every corpus** -/
+theorem specials_corpus (cfg : Cfg) (pv : Bool) (fallback : Option Disc) (corpus : List (List Word)) (m : Model)
+    (hm : Spec.estimate cfg pv fallback corpus = .ok m) (h2 : 2 ≤ cfg.order) (hne : corpus ≠ [])
+    (hw : ∀ s ∈ corpus, ∀ w ∈ s, 3 ≤ w) (hthr : ∀ i, i < cfg.order - 1 → cfg.thr i ≤ cfg.thr (i + 1)) :
+    (Query.lookup m.orders [unk]).isSome = true ∧ (Query.lookup m.orders [bos]).isSome = true ∧
+      (Query.lookup m.orders [eos]).isSome = true :=
+  KV.KN.Norm.specials_corpus cfg pv fallback corpus m hm h2 hne hw hthr
 
 /-- **closed** (specification): every written n-gram of order ≥ 2 has its context (drop the
 newest word) and its suffix (drop the oldest word) written one order lower — under pruning too. -/
